@@ -1,4 +1,4 @@
-import HexProofs.Writes.Hexital
+import HexProofs.Writes.Twin
 import HexProofs.Lib.IntInst
 /-
 C13 – Indicators sharing candles do not interfere with one another (every float carrier `F`).
@@ -8,8 +8,13 @@ Proved here, from the writes-only theorem of the engine (`HexProofs/Writes/Engin
   (b) `purge(b)`, `calculate(b)`, `calculate_index(b, i)`, `recalculate(b)`, `remove_indicator(b)` leave every
       reading stored under a name of another member `a` (disjoint name sets) exactly as it was – on every
       candle of every manager – and `reading_as_list` of `a` returns the same column.
-Stated, not proved (`presence_FULL`): the readings of `a` are the same whether or not `b` is registered, in
-either registration order.  That half needs the read-set locality of every indicator kind.
+  (c) `presence`: for a member `a` without its own timeframe, the readings of `a` are the same whatever other
+      members are registered next to it, in whatever order, under any program of
+      `calculate / calculate_index / purge / recalculate / append` – provided `a`'s tree neither writes under nor
+      can read a name of the other members (distinct names, no input dependency).  Proof: both Hexitals are in
+      step with the same standalone twin (`member_twin`, built on the read-set locality of all 28 kinds).
+Stated, not proved (`presence_FULL`): the same for a member WITH its own timeframe and for programs that
+also add / remove indicators.
 -/
 namespace Hex.C13
 open Hex
@@ -118,6 +123,65 @@ theorem program_other (ops : List OpOnB) :
   | recalculate => exact Hexital.recalculate_agree h1 h2 b tb1 hb1 e
   | calculateIndex i => exact Hexital.calculateIndex_agree h1 h2 b tb1 i hb1 e
 
+/-! ### (c) presence / absence / order of other members -/
+
+/-- the names written by every member of `ms` other than the one named `nm` -/
+def othersNames (nm : String) (ms : List (Member F)) : List String :=
+  ms.flatMap fun m => if m.tree.name = nm then [] else m.tree.allNames
+
+omit [PyF F] in
+theorem othersNames_spec (nm : String) (ms : List (Member F)) (m : Member F) (hm : m ∈ ms)
+    (hn : m.tree.name ≠ nm) : ∀ k, k ∈ m.tree.allNames → k ∈ othersNames nm ms :=
+  fun k hk => List.mem_flatMap.2 ⟨m, hm, by simp [hn, hk]⟩
+
+/-- **The readings of `a` do not depend on which other members are registered, nor on the order.**
+Two Hexitals built from the same candles with member lists `ms₁`, `ms₂` that both contain `a` (without a
+timeframe of its own) and driven with the same program return, for every reading name of `a`, the same
+column; and store, under every name of `a`'s tree, the same readings on the same collapsed candles. -/
+theorem presence (cfg : MgrCfg) (tf : Option String) (init : List (Candle F)) (ms₁ ms₂ : List (Member F))
+    (a : Member F) (ops : List (TwinOp F)) (H₁ H₂ : Hexital F)
+    (h₁ : a ∈ Hexital.dedupe ms₁) (h₂ : a ∈ Hexital.dedupe ms₂) (hatf : a.tfName = none)
+    (hok₁ : TreeOK (othersNames a.tree.name (Hexital.dedupe ms₁)) a.tree)
+    (hok₂ : TreeOK (othersNames a.tree.name (Hexital.dedupe ms₂)) a.tree)
+    (hr₁ : runHexital cfg tf init ms₁ ops = .ok H₁) (hr₂ : runHexital cfg tf init ms₂ ops = .ok H₂) :
+    (∀ name, (splitDot name).headD "" = a.tree.name →
+        readOK (othersNames a.tree.name (Hexital.dedupe ms₁)) name = true →
+        readOK (othersNames a.tree.name (Hexital.dedupe ms₂)) name = true →
+        H₁.readingAsList name = H₂.readingAsList name) ∧
+    (∃ hi₁ m₁ hi₂ m₂, dlookup a.tree.name H₁.indicators = some hi₁ ∧ dlookup hi₁.mgrKey H₁.managers = some m₁ ∧
+        dlookup a.tree.name H₂.indicators = some hi₂ ∧ dlookup hi₂.mgrKey H₂.managers = some m₂ ∧
+        m₁.candles.map Candle.core = m₂.candles.map Candle.core ∧
+        ∀ k, k ∈ a.tree.allNames → storedUnder k m₁.candles = storedUnder k m₂.candles) := by
+  obtain ⟨t₁, e₁, ht₁, inv₁⟩ := member_twin cfg tf init ms₁ a ops H₁ h₁ hatf
+    (fun m hm hn => othersNames_spec _ _ m hm hn) hok₁ hr₁
+  obtain ⟨t₂, e₂, ht₂, inv₂⟩ := member_twin cfg tf init ms₂ a ops H₂ h₂ hatf
+    (fun m hm hn => othersNames_spec _ _ m hm hn) hok₂ hr₂
+  have : t₁ = t₂ := by rw [e₁] at e₂; cases e₂; rfl
+  subst this
+  refine ⟨fun name hp r₁ r₂ => (inv₁.column name hp r₁).trans (inv₂.column name hp r₂).symm, ?_⟩
+  obtain ⟨hi₁, m₁, a1, _, a3, _, a5, a6⟩ := inv₁.readings (ht₁ ▸ hok₁)
+  obtain ⟨hi₂, m₂, b1, _, b3, _, b5, b6⟩ := inv₂.readings (ht₁ ▸ hok₂)
+  exact ⟨hi₁, m₁, hi₂, m₂, a1, a3, b1, b3, a5.trans b5.symm,
+    fun k hk => (a6 k (ht₁ ▸ hk)).trans (b6 k (ht₁ ▸ hk)).symm⟩
+
+/-- **General statement (not proved).**  As `presence`, but (i) without the restriction that `a` has no
+timeframe of its own – a member with a timeframe lives on a manager that is created, when the member is
+attached, from the default manager's candles: the proof needs that this creation commutes with dropping
+the other members' readings (true: a fresh Hexital carries no readings; after `add_indicator` on a
+calculated Hexital the new manager is built from reset candles) – and (ii) for programs that also contain
+`add_indicator` / `remove_indicator`.  Neither is covered by `member_twin`. -/
+def presence_FULL : Prop :=
+  ∀ {F : Type} [PyF F] (cfg : MgrCfg) (tf : Option String) (init : List (Candle F)) (ms₁ ms₂ : List (Member F))
+    (a : Member F) (ops : List (TwinOp F)) (H₁ H₂ : Hexital F),
+    a ∈ Hexital.dedupe ms₁ → a ∈ Hexital.dedupe ms₂ →
+    TreeOK (othersNames a.tree.name (Hexital.dedupe ms₁)) a.tree →
+    TreeOK (othersNames a.tree.name (Hexital.dedupe ms₂)) a.tree →
+    runHexital cfg tf init ms₁ ops = .ok H₁ → runHexital cfg tf init ms₂ ops = .ok H₂ →
+    ∀ name, (splitDot name).headD "" = a.tree.name →
+      readOK (othersNames a.tree.name (Hexital.dedupe ms₁)) name = true →
+      readOK (othersNames a.tree.name (Hexital.dedupe ms₂)) name = true →
+      H₁.readingAsList name = H₂.readingAsList name
+
 /-! ### non-vacuity: a concrete Hexital (toy carrier `Int`) on which every hypothesis above holds -/
 
 section Examples
@@ -183,6 +247,27 @@ example : (match exHex with
           | _, _ => false)
        | _, _, _ => false)
     | .error _ => false) = true := by decide +kernel
+
+/-- hypotheses of `presence`: `SMA_2` alone, before and after the composite `RSI_2`; the program
+also aims operations at the other member -/
+def exOps : List (TwinOp Int) :=
+  [.calculate none, .append [exCandle 16, exCandle 12], .purge (some "RSI_2"), .calculateIndex none 3,
+   .recalculate (some "SMA_2"), .append [exCandle 18], .calculate (some "RSI_2")]
+
+example :
+    (exA ∈ Hexital.dedupe [exA] ∧ exA ∈ Hexital.dedupe [exA, exB] ∧ exA ∈ Hexital.dedupe [exB, exA]) ∧
+    treeOKb (othersNames "SMA_2" (Hexital.dedupe [exA])) exA.tree = true ∧
+    treeOKb (othersNames "SMA_2" (Hexital.dedupe [exA, exB])) exA.tree = true ∧
+    treeOKb (othersNames "SMA_2" (Hexital.dedupe [exB, exA])) exA.tree = true ∧
+    readOK (othersNames "SMA_2" (Hexital.dedupe [exB, exA])) "SMA_2" = true ∧
+    isOk (runHexital {} none exCandles [exA] exOps) = true ∧
+    isOk (runHexital {} none exCandles [exA, exB] exOps) = true ∧
+    isOk (runHexital {} none exCandles [exB, exA] exOps) = true := by
+  refine ⟨⟨?_, ?_, ?_⟩, ?_⟩
+  · simp [Hexital.dedupe, dset]
+  · simp [Hexital.dedupe, exA, exB, mkTop, Ind.name, dset]
+  · simp [Hexital.dedupe, exA, exB, mkTop, Ind.name, dset]
+  · decide +kernel
 
 end Examples
 
